@@ -260,5 +260,122 @@ pub proof fn lemma_names_split(hs: Seq<HelperForm>, s: int, m: int, e: int)
     requires 2 * helpers@.len() <= usize::MAX
     ensures r matches SExp::Cons(_, left, right) && leaf_names(*left) == names_of(helpers@, 0, helpers@.len() as int) && *right == *args
 //@ end
+
+// ---- finalize_env_: the function environment is the env shape with every helper name replaced by its code
+#[verifier::external_body]
+pub struct BasicCompileContext { x: u8 }
+#[verifier::external_body]
+pub struct PrimaryCodegen { x: u8 }
+#[verifier::external_body]
+pub struct CompilerOptsDyn { x: u8 }
+// what a leaf name of the environment shape resolves to (defun code, tabled constant, inline expansion, nil for a parent function): abstract
+pub uninterp spec fn resolve_leaf(c: PrimaryCodegen, name: Seq<u8>) -> Option<SExp>;
+#[verifier::external_body]
+pub fn verif_resolve_leaf(context: &mut BasicCompileContext, opts: Rc<CompilerOptsDyn>, c: &PrimaryCodegen, l: &Srcloc, v: &Vec<u8>) -> (r: Result<Rc<SExp>, CompileErr>)
+    ensures match resolve_leaf(*c, v@) { Some(x) => r matches Ok(y) && *y == x, None => r is Err }
+{ unimplemented!() }
+
+pub open spec fn fin_rel(c: PrimaryCodegen, shape: SExp, out: SExp) -> bool
+    decreases shape
+{
+    match shape {
+        SExp::Cons(_, h, r) => out matches SExp::Cons(_, oh, or) && fin_rel(c, *h, *oh) && fin_rel(c, *r, *or),
+        SExp::Atom(_, v) => resolve_leaf(c, v@) == Some(out),
+        _ => out == shape,
+    }
+}
+
+//@ note finalize_env_: the result has the shape of the environment description with every name leaf replaced by what that name resolves to (left stays left, right stays right); the per-leaf resolution itself (defuns / constants / inlines tables) is abstract (R29)
+//@ extract fn finalize_env_ from src/compiler/codegen.rs
+//@ canary swap_sides @<Ok(r) => Ok(Rc::new(SExp::Cons(l.clone(), h.clone(), r))),>@ => @<Ok(r) => Ok(Rc::new(SExp::Cons(l.clone(), r, h.clone()))),>@
+//@ replace R10 @<opts: Rc<dyn CompilerOpts>,>@ => @<opts: Rc<CompilerOptsDyn>,>@
+//@ replace-block R29
+            if let Some(res) = c.defuns.get(v) {
+                return Ok(res.code.clone());
+            }
+
+            if let Some(res) = c.tabled_constants.get(v) {
+                return Ok(res.clone());
+            }
+
+            if let Some(res) = c.inlines.get(v) {
+                let (arg_list, arg_tail) = synthesize_args(res.args.clone());
+                return replace_in_inline(
+                    context,
+                    opts.clone(),
+                    c,
+                    l.clone(),
+                    res,
+                    res.args.loc(),
+                    &arg_list,
+                    arg_tail,
+                )
+                .map(|x| x.1);
+            }
+
+            /* Parentfns are functions in progress in the parent */
+            if c.parentfns.contains(v) {
+                Ok(Rc::new(SExp::Nil(l.clone())))
+            } else {
+                Err(CompileErr(
+                    l.clone(),
+                    format!(
+                        "A defun was referenced in the defun env but not found {}",
+                        decode_string(v)
+                    ),
+                ))
+            }
+//@ with
+            verif_resolve_leaf(context, opts.clone(), c, l, v)
+//@ replace-block R4
+        SExp::Cons(l, h, r) => finalize_env_(context, opts.clone(), c, l.clone(), h.clone())
+            .and_then(|h| {
+                finalize_env_(context, opts.clone(), c, l.clone(), r.clone())
+                    .map(|r| Rc::new(SExp::Cons(l.clone(), h.clone(), r)))
+            }),
+//@ with
+        SExp::Cons(l, h, r) => match finalize_env_(context, opts.clone(), c, l.clone(), h.clone()) { Err(e) => Err(e), Ok(h) => {
+                match finalize_env_(context, opts.clone(), c, l.clone(), r.clone()) { Err(e) => Err(e),
+                    Ok(r) => Ok(Rc::new(SExp::Cons(l.clone(), h.clone(), r))),
+                }
+            } },
+//@ sig r
+    ensures r matches Ok(out) ==> fin_rel(*c, *env, *out)
+    decreases *env
+//@ end
+
+// C01 addressing lemma over the two contracts: in an environment shape without (@ ...) captures,
+// whatever the shape binds `name` to inside the finalized environment is the value that name resolves to
+pub open spec fn no_captures(s: SExp) -> bool
+    decreases s
+{
+    match s {
+        SExp::Cons(_, h, r) => at_capture(*h, *r) is None && no_captures(*h) && no_captures(*r),
+        _ => true,
+    }
+}
+pub open spec fn only_names(s: SExp) -> bool
+    decreases s
+{
+    match s { SExp::Cons(_, h, r) => only_names(*h) && only_names(*r), SExp::Atom(_, _) => true, SExp::Nil(_) => true, _ => false }
+}
+pub open spec fn mentions_r(s: &SExp, name: Seq<u8>) -> bool { mentions(*s, name) }
+pub proof fn lemma_env_addressing(c: &PrimaryCodegen, shape: &SExp, out: &SExp, name: Seq<u8>)
+    requires fin_rel(*c, *shape, *out), no_captures(*shape), only_names(*shape), mentions(*shape, name)
+    ensures ({ let b = binds(*shape, name, tree_of(int_mode(), *out)); b is Some && resolve_leaf(*c, name) is Some && b->Some_0 == tree_of(int_mode(), resolve_leaf(*c, name)->Some_0) })
+    decreases *shape
+{
+    match shape {
+        SExp::Cons(_, h, r) => {
+            match out {
+                SExp::Cons(_, oh, or) => {
+                    if mentions_r(&**h, name) { lemma_env_addressing(c, &**h, &**oh, name); } else { lemma_env_addressing(c, &**r, &**or, name); }
+                }
+                _ => {}
+            }
+        }
+        _ => {}
+    }
+}
 }
 fn main() {}
